@@ -36,7 +36,7 @@ META = {
     'C08': ('other', 'path typestate of worker slots; data flow of the drawn processing delay to exactly one timeout',
             'Slot requested before pull and released on every exit; delay drawn once and reaching exactly one timeout; no stray waits between pull and push. '
             'Exact residence times are not decided.', 'DESIGN.md §4 C08'),
-    'C09': ('other', 'path partition on the blocking flag: no discard on blocking paths, reserve dominated by can_put on non-blocking paths, definite assignment of the decision variable, loop-exit analysis of the first-available scan (exhausted vs. break)',
+    'C09': ('other', 'path partition on the blocking flag: no discard on blocking paths, reserve dominated by can_put on non-blocking paths, definite assignment of the decision variable, loop-exit analysis of the first-available scan (exhausted vs. break), sibling agreement of the blocking-flag tests (truth, never identity)',
             'Necessary conditions only; same-instant races for the last slot are not decided.', 'DESIGN.md §4 C09'),
     'C10': ('other', 'reservation-token typestate (used xor cancelled), cancel-loop completeness (guard, iterable not edited, result test not inverted), suspension-point whitelist, who-may-call rule for item transfers (edge.get / edge.put, never the store handle)',
             'Every reservation token created by a node is used or cancelled exactly once on every path; no stray timed waits in pull/push regions. '
@@ -51,12 +51,12 @@ META = {
             'DESIGN.md §4 C12, §6'),
     'C13': ('other', 'wait-without-signal scan; path rule with a symbolic clock: after an Interrupt the next travel wait lasts d − (t1 − t0) and follows a resume wait; truth-table check of the state dispatch; value/atom based accumulation gate; who-may-interrupt; sibling agreement of the stall-delay conversion; must-reach rule on the cancellation sweep of delayed interrupts; stale-event read; constructor wiring of the accumulating flag; who-may-call rule for set_conveyor_state (the belt process only)',
             'Structural necessary conditions of stall handling; kinematics are not decided.', 'DESIGN.md §4 C13'),
-    'C14': ('other', 'control dependence of the capacity trigger, activation wait-set shape, two transit timeouts dominate the move, alias analysis of the batch iterable, batch fixed before the transit waits, exactly one suspension per activation cycle, constructor wiring edge → store (arguments bound against the store signature and resolved through single-valued attributes / locals)',
+    'C14': ('other', 'control dependence of the capacity trigger, activation wait-set shape, two transit timeouts dominate the move, alias analysis of the batch iterable, batch fixed before the transit waits, exactly one suspension per activation cycle, departure on every path on which items wait after the wake-up, constructor wiring edge → store (arguments bound against the store signature and resolved through single-valued attributes / locals)',
             'Structural necessary conditions of batch delivery; batch boundaries in time are not decided.', 'DESIGN.md §4 C14'),
     'C15': ('other', 'selector-call counting per path, who-may-consult scan of the user policy, recorded-vs-used index data flow, range-check dominance, generator update normal form, wiring of policy names, value evaluation of the stored policy for representative arguments, fresh selector object per get_edge_selector call, membership test dominating every registration of an edge in a node edge list',
             'Selector consulted once per item, recorded index = used index, range check dominates use, round-robin successor is (i+1) mod n.',
             'DESIGN.md §4 C15'),
-    'C16': ('other', 'loop-bound flow recipe → reservations, counted drain loop invariant, pallet-last emission order, path rule over the pallet container operations',
+    'C16': ('other', 'loop-bound flow recipe → reservations, counted drain loop invariant, pallet-last emission order, path rule over the pallet container operations, single-writer rule for the recipe vector',
             'Recipe count = reservation count = add_item count; pallet from edge 0; splitter drains then emits the pallet last.', 'DESIGN.md §4 C16'),
     'C17': ('other', 'symbolic effect of the accounting functions (bucket[old state] += now − old stamp; tracked cells), single writer of state, stamp-before-first-wait path rule, path-wise partition check of the Machine state groups over sign classes with the meaning of each state name, thread-state typestate (refresh after change, BLOCKED before a wait for room)',
             'Structural necessary conditions of state-time accounting; equality with time actually spent is not decided.', 'DESIGN.md §4 C17'),
